@@ -20,6 +20,8 @@ type BoolV struct {
 	T, F bool // may be true / may be false
 	Opq  bool
 	Der  bool // undecided comparison between computed floats: the two outcomes may be correlated with earlier ones
+	Src  *floatFact // Interp.Terms only: the comparison this undecided value came from
+	Neg  bool       // ... negated
 }
 
 type IntV struct {
